@@ -179,9 +179,13 @@ def run(F, S, R, tier):
         K.mustcall(R, "mustcall/broker/leader-pending", sl, [OB + "accept_descendants$"], S, allow_err_exits=False,
                    assume=[(r"BlockStatus as core::cmp::PartialEq>::eq$", False), (r"DashSet::<.*>::contains$", True), (r"Vec::<.*>::is_empty$", False)],
                    what="leader pending verification => descendants follow it")
+        K.loop_over_all(R, "loop/broker/invalid-descendants", sl, OB + "process_invalid_block$", [r"call:.*OrphanBlockPool::remove_blocks_by_parent$"],
+                        what="every descendant released under an invalid leader is refused")
         sls = F.need(OB + "search_orphan_leaders")
         K.order_dom(R, "order/broker/all-leaders", sls, r"OrphanBlockPool::clone_leaders$", OB + "search_orphan_leader$", what="every current leader is examined")
+        K.loop_over_all(R, "loop/broker/all-leaders", sls, OB + "search_orphan_leader$", [r"call:.*OrphanBlockPool::clone_leaders$"], what="every leader is examined")
         ad = F.need(OB + "accept_descendants")
+        K.loop_over_all(R, "loop/broker/accept-all", ad, OB + "process_descendant$", [r"param:descendants"], what="every released descendant is processed")
         K.mustcall(R, "mustcall/broker/accept-all", ad, [OB + "process_descendant$"], S, allow_err_exits=False, assume=[], what="released descendants are all processed") if False else None
         if not ad.calls_to(OB + "process_descendant$"):
             R.bad("mustcall/broker/accept-all", "accept_descendants no longer processes the released blocks", [ad.where()])
